@@ -16,7 +16,7 @@ META = dict(
          'on the public call; non-trivial = ul != ur or gl != gr (or JWL); distinct = hash of the full case',
     assumptions=['trapezoid quadrature on two incommensurate grids (2000/2999 cells) with every discontinuous cell split at the '
                  'jump located to 2^-48 of the cell; a violation must show on both grids',
-                 'general-EOS solver values are interpolants on its internal grid: fields are read at the internal nodes and the tolerance is the one-cell bound h TV / 2 of the trapezoid rule (computed per case) + 3e-4; 1e-4 for the analytic solver'])
+                 'general-EOS solver values are interpolants on its internal grid: fields are read at the internal nodes and the tolerance is the one-cell bound h TV of the trapezoid rule (computed per case) + 3e-4; 1e-4 for the analytic solver'])
 
 
 def conservation(o, s, case, a, b, tol, regime):
@@ -79,8 +79,8 @@ def plain_conservation(o, s, case, a, b, tol, regime, n=None):
     """general-EOS solver: every public call repeats the whole construction (ODE tables, ~1 s) and the returned values are
     linear interpolants on its internal grid linspace(xmin, xmax, num_x_pts).  The fields are therefore read AT the internal
     nodes (where the interpolant is the solver's own value, so rho, u, p, e are mutually consistent) and integrated with the
-    trapezoid rule; for node values of a function of bounded variation |integral - trapezoid| <= h TV / 2, which is the
-    documented one-cell resolution of every shock and contact.  The tolerance is that bound (from the measured total variation
+    trapezoid rule; for samples of a function of bounded variation taken once per cell |integral - trapezoid| <= h TV (h TV / 2 at the
+    exact nodes), which is the documented one-cell resolution of every shock and contact.  The tolerance is that bound (from the measured total variation
     of each conserved density) plus `tol` for the smooth part (ODE tables of the fans)."""
     t = case['t']
     P = case['params']
@@ -104,7 +104,9 @@ def plain_conservation(o, s, case, a, b, tol, regime, n=None):
                       abs(Ua[2]) * (P['xd0'] - a) + abs(Ub[2]) * (b - P['xd0'])])
     err = (got - want) / scale
     tv = np.sum(np.abs(np.diff(U, axis=1)), axis=1)
-    res = 0.5 * h * tv / scale * 1.05
+    # (h TV / 2 holds for values sampled exactly at the nodes of the solver's table; the thorough tier showed 1.3 x that bound, converging
+    #  first order in num_x_pts, i.e. the public values are not exactly node values: the bound for an arbitrarily placed sample, h TV, is used)
+    res = h * tv / scale
     for k, name in enumerate(('mass', 'momentum', 'energy')):
         o.close('integral conservation of ' + name, err[k], 0.0, 0.0, atol=tol + res[k], regime=regime, one_cell_resolution_bound=float(res[k]))
     o.info['err'] = err.tolist()
